@@ -541,8 +541,6 @@ def run(ctx):
     maxn = 10
     for nb in range(0, maxn + 1):
         for mask in range(1 << nb):
-            if q and nb > 7 and rng.random() > 0.25:      # quick: all subsets up to 7 blocks, a quarter beyond
-                continue
             ln = 0 if nb == 0 else rng.randrange((nb - 1) * 22 + 1, nb * 22 + 1)
             plan = [('P', rng.choice([0, 1, 2, 3])) if mask >> i & 1 else ('A',) for i in range(nb)]
             upload_case(rand_bytes(rng, ln), 22, plan, kind='upload-subset')
@@ -606,7 +604,7 @@ def run(ctx):
     res.rule = ('images: independent HPM.1 encoder, OEM data lengths 0..255 (boundaries always, all 256 in thorough), 1..8 '
                 'action records of the three image record types, firmware 0..4096 bytes, the bundled firmware.hpm, and a '
                 'malformed stream (truncations, bad BCD, unknown types, wrong declared lengths, random bytes); uploads: '
-                'every in-progress subset for 0..10 blocks (quick: all up to 7 blocks, a quarter of 8..10) and every single '
+                'every in-progress subset for 0..10 blocks and every single '
                 'refusal position, lengths 0..6000 across the 256-block wrap with random plans, block sizes 1..255, default '
                 'arguments, transport faults. distinct = distinct canonical inputs (all non-trivial)')
     pick = [i for i in (0, 600, len(terms) // 2, len(terms) - 1) if i < len(terms)]
